@@ -25,6 +25,11 @@ RESP = [
     {"k": "resp", "status": 200, "body": "fault-in-body-zzzzzzzz", "body_fault": [5, "KeyboardInterrupt"]},
     {"k": "resp", "status": 200, "body": "fault-in-body-wwwwwwww", "body_fault": [5, "timeout"]},
     {"k": "resp", "status": 200, "body": "fault-in-body-vvvvvvvv", "body_fault": [3, "base"]},
+    {"k": "resp", "status": 200, "body": "fault-in-closing-body-1", "keepalive": False, "body_fault": [5, "ECONNRESET"]},
+    {"k": "resp", "status": 200, "body": "fault-in-closing-body-2", "keepalive": False, "body_fault": [5, "timeout"]},
+    {"k": "resp", "status": 200, "body": "fault-until-close-body-3", "framing": "close", "body_fault": [5, "timeout"]},
+    {"k": "resp", "status": 200, "body": "fault-until-close-body-4", "framing": "close", "body_fault": [4, "ssl"]},
+    {"k": "resp", "status": 200, "body": "fault-in-chunked-body-5", "framing": "chunked", "chunk_sizes": [4, 4], "body_fault": [6, "timeout"]},
     {"k": "resp", "status": 204, "body": ""},
     {"k": "resp", "status": 302, "headers": [["Location", "/next"]], "body": "moved"},
     {"k": "resp", "status": 303, "headers": [["Location", "/next"]], "body": "moved", "keepalive": False},
@@ -119,7 +124,7 @@ def run_case(rec: Recorder, case: dict[str, typing.Any]) -> None:
     netsim.make_exc = tracking_make  # type: ignore[assignment]
     held: list[tuple[typing.Any, str]] = []  # undisposed responses
     try:
-        with netsim.Net(script) as net:
+        with netsim.Net(script, deep_dial=bool(cfg.get("deep")), addresses_per_name=cfg.get("deep") or 1) as net:
             kw = dict(maxsize=cfg["maxsize"], block=cfg["block"], retries=build_retries(cfg["retries"]))
             if cfg["kind"] == "direct":
                 pool: typing.Any = urllib3.HTTPConnectionPool("o.test", 80, **kw)
@@ -367,6 +372,9 @@ def random_request(rng: typing.Any, first_fault_only: bool = False) -> dict[str,
 
 def random_case(rng: typing.Any) -> dict[str, typing.Any]:
     cfg = {"kind": rng.choice(["direct", "direct", "forward", "tunnel"]), "maxsize": rng.choice([1, 1, 2, 3]), "block": rng.random() < 0.6, "retries": rng.choice(RETRIES), "preload": rng.random() < 0.5, "release_conn": rng.choice([None, None, True, False])}
+    if rng.random() < 0.3:
+        # urllib3's own create_connection runs (scripted getaddrinfo / socket constructor), the name has 1-3 addresses
+        cfg["deep"] = rng.choice([1, 2, 2, 3])
     reqs = [random_request(rng) for _ in range(rng.choice([1, 2, 2, 3]))]
     return {"cfg": cfg, "requests": reqs, "shape": "random", "lease_probe": rng.random() < 0.3}
 
@@ -392,6 +400,23 @@ def run_shard(ctx: Ctx, rec: Recorder) -> None:
                                     rec.case(["single", cfg, oi, disposal])
                                     run_case(rec, case)
                                     rec.seen("fault_points", f"{o['k']}:{o.get('err', o.get('status'))}:{o.get('at', '')}:{'bodyfault' if 'body_fault' in o else ''}")
+    # (i-b) connect-step outcomes through urllib3's own create_connection with 1 and 2 addresses per name
+    for kind in ("direct", "forward"):
+        for deep in (1, 2):
+            for block in (True, False):
+                for retries in (False, 1):
+                    for preload in (True, False):
+                        for oi, o in enumerate(CONNECT_F):
+                            for second in (None, {"k": "connect", "err": "ECONNREFUSED"}, {"k": "connect", "err": "KeyboardInterrupt"}):
+                                idx += 1
+                                if not ctx.mine(idx):
+                                    continue
+                                cfg = {"kind": kind, "maxsize": 1, "block": block, "retries": retries, "preload": preload, "release_conn": None, "deep": deep}
+                                attempts = [dict(o)] + ([dict(second)] if second else [])
+                                case = {"cfg": cfg, "requests": [{"method": "GET", "attempts": attempts, "disposal": "data" if preload else "read", "dispose_when": "now"}, {"method": "GET", "attempts": [], "disposal": "data" if preload else "read", "dispose_when": "now"}], "shape": "deep-dial", "lease_probe": False}
+                                rec.case(["deep", cfg, oi, second])
+                                rec.mon("deep_dial_case")
+                                run_case(rec, case)
     rec.exhaustive_parts.append(f"single-outcome histories: {len(ALL_OUTCOMES)} outcomes x 3 pool kinds x maxsize 1/2 x block x 4 retry policies x preload x release_conn x disposals, strided 1/{stride}")
     # (ii) random histories of 1-3 requests with 1-3 attempts each, overlapping leases
     n = ctx.pick(6000, 250000)
